@@ -677,3 +677,7 @@ Section Text2.
     - eapply Forall_impl; [|exact Hwf]. intros l Hl. now apply render_ok.
   Qed.
 End Text2.
+
+(* every byte of a non-ASCII character is a token byte for the model's (ASCII) white-space predicate *)
+Lemma not_ws_high_byte : forall b : byte, 128 <= Byte.to_nat b -> not_ws b = true.
+Proof. intros b. destruct b; cbn; intros H; try reflexivity; lia. Qed.
